@@ -3,6 +3,7 @@ import Octo.Lemmas.AggDistinct
 import Octo.Lemmas.AggFloat
 import Octo.Lemmas.AggOracle
 import Octo.Lemmas.AggEmpty
+import Octo.Lemmas.AggFlag
 /-!
 # C14 — Aggregates are invariant under retraction histories
 
@@ -71,6 +72,26 @@ theorem add_reports_emptiness_every_step (k : Kind) (d : Bool) (h : Hist) (hv : 
     ((mkAgg k d).run (h.take n)).2 = (bagRun [] (h.take n)).isEmpty :=
   add_reports_emptiness k d (h.take n) (validHist_take hv n)
     (fun e he => hP e (List.mem_of_mem_take he)) _ (bagRun_isNet (validHist_take hv n))
+
+/-- the flag needs no assumption on the inputs (element counts / the wrapper's map only) -/
+def flagProof : (k : Kind) → (d : Bool) → FlagProof (mkAgg k d)
+  | k, true => distinctFlag (baseAgg k)
+  | .count, false => countProof.toFlag
+  | .sumInt, false => sumIntProof.toFlag
+  | .sumFloat, false => sumFloatFlag
+  | .sumDur, false => sumDurProof.toFlag
+  | .avgInt, false => avgIntProof.toFlag
+  | .avgFloat, false => avgFloatFlag
+  | .avgDur, false => avgDurProof.toFlag
+  | .min, false => minProof.toFlag
+  | .max, false => maxProof.toFlag
+  | .array, false => arrayProof.toFlag
+
+/-- **the returned flag, unconditionally**: for every aggregate (float sums fed with ±Inf/NaN included) and
+    every valid history, the last `Add` returned `true` iff the net multiset is empty -/
+theorem add_reports_emptiness_all_inputs (k : Kind) (d : Bool) (h : Hist) (hv : ValidHist h)
+    (M : List Value) (hM : IsNet M h) : ((mkAgg k d).run h).2 = M.isEmpty :=
+  (flagProof k d).main h hv M hM
 
 /-- every valid history has a net multiset (the hypotheses `IsNet M h` are satisfiable) -/
 theorem net_multiset_exists (h : Hist) (hv : ValidHist h) : ∃ M, IsNet M h :=
